@@ -226,6 +226,31 @@ def _rq_events(args):
                 except Exception as ex:  # judged as a wrong answer
                     got = [0, E.exc_name(ex)]
                 ev.append(["rq", qs, qe, cw, spans, got])
+    # the END of the binning scheme (2^29): ranges that reach it, end on it, or lie beyond it, over members on either side
+    M = 1 << 29
+    for _ in range(max(2, n // 4)):
+        spans, genes = [], []
+        for k in range(rnd.randrange(2, 6)):
+            s = M + rnd.choice([-200000, -9000, -5000, -700, -3, 0, 40, 900])
+            e = s + rnd.choice([1, 5, 600, 1000])
+            genes.append(GeneInterval([TranscriptInterval([s], [e], Strand.PLUS if k % 2 else Strand.MINUS)]))
+            spans.append([s, e])
+        coll = AnnotationCollection(genes=genes, start=0, end=M + 3000)
+        for _q in range(8):
+            qs = M + rnd.choice([-300000, -10000, -6000, -1000, -1, 0, 30])
+            qe = M + rnd.choice([-4000, -1, 0, 1, 50, 1500, 3000])
+            if qs >= qe:
+                continue
+            for cw in (True, False):
+                try:
+                    res = coll.query_by_position(qs, qe, completely_within=cw)
+                    got = sorted(i + 1 for i, sp in enumerate(spans)
+                                 if any(g.start == sp[0] and g.end == sp[1] and g.guid == genes[i].guid for g in res.genes))
+                    if len(res.genes) != len(got):
+                        got = got + [0]
+                except Exception as ex:  # judged as a wrong answer
+                    got = [0, E.exc_name(ex)]
+                ev.append(["rq", qs, qe, cw, spans, got])
     return ev
 
 
